@@ -35,3 +35,20 @@ package store
 //@   loop 0 invariant forall k node.Key :: __in(snap.Nodes, k) == (old(__in(SpecState[c].Nodes, k)) || __seen(k))
 //@   loop 0 invariant forall k node.Key :: __seen(k) && (!old(__in(SpecState[c].Nodes, k)) || other[k].Heartbeat.OlderThan(old(SpecState[c].Nodes[k]).Heartbeat)) ==> snap.Nodes[k] == other[k]
 //@   loop 0 invariant forall k node.Key :: old(__in(SpecState[c].Nodes, k)) && !(__seen(k) && other[k].Heartbeat.OlderThan(old(SpecState[c].Nodes[k]).Heartbeat)) ==> snap.Nodes[k] == old(SpecState[c].Nodes[k])
+
+//@ # ---- the same store seen through the Store interface (what gossip holds). The contracts
+//@ # of CopyState/Merge are the ones stated (and, for Merge, proved) on *core above.
+//@ ghost SpecIState map[Store]State
+//@ spec func SpecWFGroup(g node.Group) bool = forall k node.Key :: __in(g, k) ==> g[k].Key == k
+//@ trusted func (s Store) CopyState() (st State)
+//@   ensures st.HostKey == SpecIState[s].HostKey && st.ClusterKey == SpecIState[s].ClusterKey
+//@   ensures st.Nodes != nil && __fresh(st.Nodes)
+//@   ensures SpecIState[s].Nodes != nil && old(__alloc(SpecIState[s].Nodes))
+//@   ensures forall k node.Key :: __in(st.Nodes, k) == __in(SpecIState[s].Nodes, k) && st.Nodes[k] == SpecIState[s].Nodes[k]
+//@   modifies nothing
+//@ trusted func (s Store) Merge(ctx context.Context, other node.Group)
+//@   requires SpecWFGroup(other)
+//@   ensures  forall k node.Key :: __in(SpecIState[s].Nodes, k) == (old(__in(SpecIState[s].Nodes, k)) || __in(other, k))
+//@   ensures  forall k node.Key :: __in(other, k) && (!old(__in(SpecIState[s].Nodes, k)) || other[k].Heartbeat.OlderThan(old(SpecIState[s].Nodes[k]).Heartbeat)) ==> SpecIState[s].Nodes[k] == other[k]
+//@   ensures  forall k node.Key :: old(__in(SpecIState[s].Nodes, k)) && !(__in(other, k) && other[k].Heartbeat.OlderThan(old(SpecIState[s].Nodes[k]).Heartbeat)) ==> SpecIState[s].Nodes[k] == old(SpecIState[s].Nodes[k])
+//@   modifies SpecIState
